@@ -199,6 +199,8 @@ def _set_menus(sub):
             ["=", ["+", ["*", "2", a], b], "1"],           # (2*a) := 1 - b : compound eliminated term
             ["=", ["+", a, ["*", c, c]], "0"],             # a := -(c*c): non-linear replacement
             ["=", ["-", a, b], "0"],                       # not eliminable (lhs is not a sum)
+            ["=", ["-", a, b], "1"],                       # a difference equal to a non-zero numeral ...
+            ["=", ["-", a, b], c],                         # ... and to a fluent: a = c + b, never c - b
         ]
         ineqs = [
             ["<=", a, "3"],
@@ -288,8 +290,28 @@ def _env_cases(tier):
         yield {"kind": "env", "sub": "E", "env": env, "conds": inputs, "tags": ["env", str(env)]}
 
 
+COLLIDING = [(["fuel-level", "?t1"], ["fuel-level", "t1"]), (["y", "?a"], ["y", "a"]),
+             (["load_limit", "?z"], ["load_limit", "z"]), (["g2", "o1", "o-2"], ["g2", "o1", "o2"]),
+             (["g2", "?o1", "?o2"], ["g2", "o1", "o2"]), (["fuel-level", "?t1"], ["fuel-level", "?t-1"])]
+
+
+def _seq_cases(tier):
+    """histories of calls in one process over fluent texts that differ only in '?', '-' or blanks (a lifted term and its
+    grounding): every call is judged against its own input, whatever was simplified before it"""
+    x = FLUENTS[0]
+    forms = [lambda f: ["<=", ["+", f, "1"], "3"], lambda f: [">", ["*", f, "2"], x],
+             lambda f: ["=", ["+", f, x], "1"], lambda f: ["<", ["-", ["*", f, f], x], "2"]]
+    for pi, (fa, fb) in enumerate(COLLIDING):
+        for fi, form in enumerate(forms):
+            for order in ("ABA", "BAB", "AAB"):
+                seq = [form(fa if ch == "A" else fb) for ch in order]
+                yield {"kind": "seq", "sub": "E", "seq": seq, "order": order, "digits": [4],
+                       "tags": ["seq", order, f"pair{pi}", f"form{fi}"]}
+
+
 def cases(tier):
     out = []
+    out.extend(_seq_cases(tier))
     out.extend(_expr_cases(tier))
     out.extend(_round_cases(tier))
     out.extend(_set_cases(tier))
@@ -300,6 +322,8 @@ def cases(tier):
 
 
 def _describe(c):
+    if c["kind"] == "seq":
+        return " ; then ".join(f"({o} {G.to_pddl(l)} {G.to_pddl(r)})" for o, l, r in c["seq"])
     if c["kind"] == "expr":
         return f"{G.to_pddl(c['expr'])} ? {G.to_pddl(c['rhs'])}"
     return " & ".join(f"({o} {G.to_pddl(l)} {G.to_pddl(r)})" for o, l, r in c["conds"])
@@ -1015,8 +1039,35 @@ def check_env(case, r):
     return r
 
 
+def check_seq(case, r):
+    ctx = Ctx(r, case)
+    d = case["digits"][0]
+    entries = {
+        "string": lambda op, lhs, rhs: call_eq(lhs, rhs, d) if op == "=" else call_ineq(op, lhs, rhs, d),
+        "tree": lambda op, lhs, rhs: call_tree(op, lhs, rhs, d),
+        "print": lambda op, lhs, rhs: call_print([(op, lhs, rhs)], d),
+    }
+    for name, fn in entries.items():
+        r.count("states")
+        for i, (op, lhs, rhs) in enumerate(case["seq"]):
+            c = Cond(op, lhs, rhs)
+            got = guard(fn, op, lhs, rhs)
+            r.count("transitions")
+            before = len(r.fails)
+            entry = f"call {i + 1} of {case['order']} [{name}]"
+            if name == "print":
+                judge_set(ctx, entry, [c], got, d, True)
+            else:
+                judge_single(ctx, entry, c, got, d, c.text(), True)
+            if len(r.fails) > before:
+                return r
+    return r
+
+
 def check_case(case):
     r = CaseResult()
+    if case["kind"] == "seq":
+        return check_seq(case, r)
     if case["kind"] == "expr":
         return check_expr(case, r)
     if case["kind"] == "set":
